@@ -1306,8 +1306,24 @@ func verifyGitObjectAndAttestationsUsingVerifiers(ctx context.Context, verifiers
 		verifiedUsing                       string
 		acceptedPrincipalIDs                *set.Set[string]
 		rslEntrySignatureNeededForThreshold bool
+
+		// authenticatedPrincipalIDs is populated by the exhaustive verifier
+		// (present when global rules exist). It only counts authenticated
+		// principals for global rules, it never satisfies a delegation rule.
+		authenticatedPrincipalIDs *set.Set[string]
+		hasSpecificVerifier       bool
 	)
 	for _, verifier := range verifiers {
+		if verifier.verifyExhaustively {
+			usedPrincipalIDs, err := verifier.Verify(ctx, gitID, authorizationAttestation)
+			if err != nil {
+				return "", nil, false, err
+			}
+			authenticatedPrincipalIDs = usedPrincipalIDs
+			continue
+		}
+		hasSpecificVerifier = true
+
 		trustedPrincipalIDs := verifier.TrustedPrincipalIDs()
 
 		usedPrincipalIDs, err := verifier.Verify(ctx, gitID, authorizationAttestation)
@@ -1384,7 +1400,21 @@ func verifyGitObjectAndAttestationsUsingVerifiers(ctx context.Context, verifiers
 		}
 	}
 
+	if authenticatedPrincipalIDs != nil {
+		if !hasSpecificVerifier {
+			// No delegation rule protects this namespace, only global rules
+			// apply and they are checked by the caller
+			return "", authenticatedPrincipalIDs, false, nil
+		}
+		if acceptedPrincipalIDs != nil {
+			authenticatedPrincipalIDs.Extend(acceptedPrincipalIDs)
+		}
+	}
+
 	if verifiedUsing != "" {
+		if authenticatedPrincipalIDs != nil {
+			acceptedPrincipalIDs = authenticatedPrincipalIDs
+		}
 		return verifiedUsing, acceptedPrincipalIDs, rslEntrySignatureNeededForThreshold, nil
 	}
 
